@@ -30,6 +30,8 @@ def scenarios(seed, tier):
                     ep = max(ep, 16)
                 if pre in (2, 4):
                     ep = max(ep, 14)     # fast-stagnation presets: delta coding fires after DropOffAge + 5 epochs without a record
+                    if size >= 12 and fam % 2 == 0:
+                        size += 1        # odd sizes: delta coding splits PopSize unevenly between the two best species
                 out.append({"seed": seed * 100000 + k, "popsize": size, "executor": "par" if k % 3 == 2 else "seq",
                             "start": STARTS[(k // 2) % len(STARTS)], "fitness": fam, "epochs": ep, "preset": pre})
                 k += 1
